@@ -10,10 +10,16 @@ import os
 import random
 import subprocess
 import sys
+import time
 from concurrent.futures import ThreadPoolExecutor
 
 LIMIT_S = 20.0          # CPU seconds per query (process CPU time, so a busy machine does not matter much)
-FLOOR = 60000           # work units (Python calls) below which growth ratios are noise: the constant C
+FLOOR = 30000           # work units (Python calls) below which growth ratios are noise: the constant C
+# Sandbox artefact, not reported: without typeshed (empty submodule here) list/tuple/dict literals are generic classes over
+# COMPILED builtins, and any attribute access on them (`x = []; x.append`, no cycle in the program at all) recurses in
+# ClassMixin.get_filters -> `yield from cls.get_filters(...)` until RecursionError. Signature: > 90 % of the traceback
+# frames are klass.py:get_filters. Other exceptions (AssertionError in get_filters, ...) are C01's business, only counted.
+ENV_ARTEFACT = 'RecursionError with > 90 % of the frames in inference/value/klass.py:get_filters'
 FOLLOW = ['goto', 'infer', 'docstring', 'get_signatures', 'defined_names', 'get_line_code', 'get_type_hint',
           'execute', 'parent']
 
@@ -149,7 +155,7 @@ def scaling_family(fam, n):
 
 FAMILIES = ['chain-assign', 'chain-call', 'chain-inherit', 'diamond-assign', 'diamond-inherit', 'diamond-attr',
             'tree-call', 'tree-expr']
-SCALE_KINDS = ['infer', 'goto', 'complete', 'help', 'get_references']
+SCALE_KINDS = ['infer', 'complete', 'get_signatures']      # at `r`, after `r.`, after `r(`
 
 # ------------------------------------------------------------------ worker process
 CHILD = 'import sys, json; job = json.load(sys.stdin); sys.path.insert(0, job["repo"]); ' \
@@ -162,10 +168,10 @@ class _Hang(BaseException):
 
 def child(job):
     import signal
-    import traceback
     import jedi
     import parso
     jedi.settings.cache_directory = job['cache']
+    env = jedi.InterpreterEnvironment()      # compiled objects in-process: no pipe to desynchronise on an abort
     calls = [0]
 
     def count(code, offset):
@@ -193,25 +199,35 @@ def child(job):
         except _Hang:
             return 'hang', 'no result after %s s CPU, %d Python calls' % (job['limit'], calls[0]), calls[0]
         except BaseException as e:
-            chain, x = [], e
+            chain, x, frames, tb = [], e, [], e.__traceback__
             while x is not None and len(chain) < 20:
                 chain.append(x)
                 x = x.__cause__ or x.__context__
-            text = ''.join(traceback.format_exception(e))
-            rec = any(isinstance(c, RecursionError) for c in chain) or 'maximum recursion depth' in text
-            return ('RecursionError' if rec else 'exc:' + type(e).__name__), text[-500:], calls[0]
+            while tb is not None:
+                co = tb.tb_frame.f_code
+                frames.append('%s:%d %s' % (co.co_filename.split('/jedi/')[-1], tb.tb_lineno, co.co_name))
+                tb = tb.tb_next
+            text = '%s: %s; %d frames, innermost last: %s' % (type(e).__name__, str(e)[:100], len(frames), frames[-12:])
+            if not any(isinstance(c, RecursionError) for c in chain) and 'maximum recursion depth' not in str(e):
+                return 'exc:' + type(e).__name__, text, calls[0]
+            loop = [f for f in frames if f.startswith('inference/value/klass.py') and f.endswith(' get_filters')]
+            if len(loop) > 0.9 * len(frames):       # see ENV_ARTEFACT
+                return 'env', text, calls[0]
+            mid = [f.split(':')[0] + f[f.index(' '):] for f in frames[-400:-20]]
+            return 'RecursionError', 'loop through %s | %s' % (sorted(set(mid), key=lambda f: -mid.count(f))[:4], text), calls[0]
 
     if job['mode'] == 'scale':
         out = {}
         for n in job['sizes']:
             code = scaling_family(job['family'], n)
             line = len(code.split('\n'))
-            s = jedi.Script('warm = 1\nwarm.real\n' + code)
+            s = jedi.Script('warm = 1\nwarm.real\n' + code, environment=env)
             s.infer(2, 1), s.complete(2, 6)          # load builtins etc. outside the measurement
             out[n] = {}
             for kind in SCALE_KINDS:
-                s = jedi.Script(code + '.' * (kind == 'complete'), path=os.path.join(job['root'], 'scale_%s.py' % kind))
-                st, res, work = watched(lambda: getattr(s, kind)(line, 2 * (kind == 'complete')))
+                s = jedi.Script(code + {'infer': '', 'complete': '.', 'get_signatures': '('}[kind], environment=env,
+                                path=os.path.join(job['root'], 'scale_%s.py' % kind))
+                st, res, work = watched(lambda: getattr(s, kind)(line, 2 * (kind != 'infer')))
                 out[n][kind] = [st, work, res if st != 'ok' else len(res)]
             if any(v[0] == 'hang' for v in out[n].values()):
                 break
@@ -234,7 +250,8 @@ def child(job):
     if job.get('max_queries') and len(queries) > job['max_queries']:
         queries = sorted(random.Random(job['seed']).sample(queries, job['max_queries']), key=queries.index)
     rot = job['seed'] % 9
-    res = {'evaluations': 0, 'nontrivial': 0, 'max_work': 0, 'problems': [], 'resume': None, 'total': len(queries)}
+    res = {'evaluations': 0, 'nontrivial': 0, 'max_work': 0, 'problems': [], 'resume': None, 'total': len(queries),
+           'slowest': [0, '']}
 
     def call(s, kind, l, c):
         if kind == 'goto_follow':
@@ -245,15 +262,17 @@ def child(job):
             return s.get_names(all_scopes=True, definitions=True, references=True)
         return getattr(s, kind)(l, c)
     todo = [job['only']] if job.get('only') is not None else range(job.get('start', 0), len(queries))
-    script, at = None, None
+    script, at, done = None, None, set()
     for qi in todo:
         kind, l, c = queries[qi]
         if at != (l, c) or (qi + rot) % 4 == 0:      # mostly one Script per position, sometimes a cold one
-            script, at = jedi.Script(code, path=path, project=project), (l, c)
+            script, at = jedi.Script(code, path=path, project=project, environment=env), (l, c)
         steps = [(kind, lambda: call(script, kind, l, c))]
         while steps:
             label, fn = steps.pop(0)
+            t0 = time.process_time()
             st, r, work = watched(fn)
+            res['slowest'] = max(res['slowest'], [round(time.process_time() - t0, 2), '%s @%d:%d -> %s' % (kind, l, c, label)])
             res['evaluations'] += 1
             res['max_work'] = max(res['max_work'], work)
             if st != 'ok':
@@ -263,9 +282,13 @@ def child(job):
                     break
                 continue
             res['nontrivial'] += bool(r)
-            if label == kind and isinstance(r, list):
-                user = [d for d in r if not d.name.startswith('__') and d.name in code][:3]
+            if label == kind:        # follow-ups, once per file for the same definition and kind of result
+                user = [d for d in (r if isinstance(r, list) else [r]) if not d.name.startswith('__') and d.name in code][:3]
                 for i, d in enumerate(user):
+                    key = (kind in ('infer', 'help', 'goto_follow'), kind == 'complete', d.name, d.line, d.column)
+                    if key in done and job.get('only') is None:
+                        continue
+                    done.add(key)
                     names = FOLLOW if kind != 'get_signatures' else ['docstring', 'to_string']
                     steps += [('%s[%d].%s()' % (kind, i, f), getattr(d, f)) for f in names if hasattr(d, f)]
                     steps.append(('%s[%d].full_name/description/type' % (kind, i),
@@ -291,7 +314,7 @@ def run(repo, seed, tier):
     quick = tier == 'quick'
     tmp = os.environ['STANDIN_TMP']
     rng = random.Random(seed)
-    base = {'repo': repo, 'limit': LIMIT_S, 'seed': seed, 'max_queries': 400 if quick else None}
+    base = {'repo': repo, 'limit': LIMIT_S, 'seed': seed, 'max_queries': 250 if quick else None}
     progs = []                      # (label, root, relpath, code)
     items = [(name, {'main.py': code}) for name, code in SINGLE.items()] + list(PROJECTS.items())
     sizes = [5, 8, 12, 16, 20, 24, 28, 32, 36, 40] if quick else [rng.randrange(3, 41) for _ in range(60)] + [40] * 4
@@ -310,17 +333,24 @@ def run(repo, seed, tier):
                     cache=os.path.join(tmp, 'cache_c15_%d' % i), **kw)
 
     def do_program(i):
+        t0 = time.time()
         parts, start = [], 0
         while start is not None:
             r = _spawn(job_for(i, start=start), wall=3600)
             parts.append(r)
             start = r['resume'] if r['resume'] is not None and r['resume'] < r['total'] else None
+        if os.environ.get('C15_DUMP'):
+            print('TIMING', progs[i][0], round(time.time() - t0, 1), sum(r['evaluations'] for r in parts), flush=True)
         return i, parts
 
     def do_family(fam):
+        t0 = time.time()
         ns = list(range(1, 25)) if quick else list(range(1, 65))
-        return fam, _spawn(dict(base, mode='scale', family=fam, sizes=ns, root=tmp,
-                                cache=os.path.join(tmp, 'cache_c15_' + fam)), wall=3600)
+        r = _spawn(dict(base, mode='scale', family=fam, sizes=ns, root=tmp,
+                        cache=os.path.join(tmp, 'cache_c15_' + fam)), wall=3600)
+        if os.environ.get('C15_DUMP'):
+            print('TIMING', fam, round(time.time() - t0, 1), flush=True)
+        return fam, r
 
     workers = max(2, min(16, (os.cpu_count() or 4)))
     with ThreadPoolExecutor(workers) as pool:
@@ -328,11 +358,12 @@ def run(repo, seed, tier):
         prog_results = list(pool.map(do_program, sorted(range(len(progs)), key=lambda i: -len(progs[i][3]))))
         fam_results = [f.result() for f in fam_futs]
 
-    violations, counts, evaluations, nontrivial, max_work = [], {}, 0, 0, 0
+    violations, counts, other, grouped, evaluations, nontrivial, max_work = [], {}, {}, {}, 0, 0, 0
 
     def violation(label, inp, observed):
         counts[label] = counts.get(label, 0) + 1
         violations.append({'label': label, 'input': inp, 'observed': str(observed)[:600]})
+        return violations[-1]
     for i, parts in prog_results:
         label, root, rel, code = progs[i]
         for r in parts:
@@ -345,10 +376,16 @@ def run(repo, seed, tier):
                     again = _spawn(job_for(i, only=pr['query']), wall=3600)
                     if any(p2['status'] == 'hang' for p2 in again['problems']):
                         violation('query did not return within %g s of CPU time (confirmed alone)' % LIMIT_S, inp, pr['detail'])
-                elif pr['status'] == 'RecursionError':
-                    violation('query raised RecursionError', inp, pr['detail'])
+                elif pr['status'] == 'RecursionError':      # one entry per file and recursion loop, with a count
+                    key = (i, pr['detail'].split(' | ')[0])
+                    if key not in grouped:
+                        grouped[key] = [violation('query raised RecursionError', inp, pr['detail']), pr['detail'], 0]
+                    grouped[key][2] += 1
+                    counts['query raised RecursionError'] = counts['query raised RecursionError'] + (grouped[key][2] > 1)
                 else:
-                    violation('query raised an exception instead of returning', inp, pr['detail'])
+                    other[pr['status']] = other.get(pr['status'], 0) + 1
+    for v, detail, n in grouped.values():
+        v['observed'] = ('%d queries on this file fail like this; first: %s' % (n, detail))[:600]
     scale_sample = {}
     for fam, table in fam_results:
         w = {}
@@ -363,7 +400,7 @@ def run(repo, seed, tier):
                 elif st == 'RecursionError':
                     violation('query raised RecursionError', inp, detail)
                 elif st != 'ok':
-                    violation('query raised an exception instead of returning', inp, detail)
+                    other[st] = other.get(st, 0) + 1
                 else:
                     w.setdefault(kind, {})[int(n)] = work
         for kind, ws in w.items():
@@ -378,7 +415,7 @@ def run(repo, seed, tier):
                     violation('work grows exponentially: it (nearly) doubles per +1 in n over four consecutive sizes',
                               'scaling family %s, query %s, n=%d..%d' % (fam, kind, n, n + 4), 'work %s' % run4)
     if os.environ.get('C15_DUMP'):
-        json.dump(violations, open(os.environ['C15_DUMP'], 'w'))
+        json.dump([violations, fam_results], open(os.environ['C15_DUMP'], 'w'))
     return {'name': 'C15.cycles-and-scaling', 'contract': 'C15.returns-bounded',
             'evaluations': evaluations, 'distinct_nontrivial': nontrivial,
             'rule': '%d hand-written self-referential programs (cyclic assignment, recursion, self/cyclic/factory inheritance, '
@@ -386,13 +423,14 @@ def run(repo, seed, tier):
                     'cycles), %d on-disk import-cycle projects (every file queried), %d seeded random definition graphs with '
                     'cycles (<= 40 nodes): at every name/dot/paren: infer, goto (+follow_imports), help, get_references '
                     '(project+file), get_context, get_signatures, complete, get_names and Name follow-ups (%s) on the first 3 '
-                    'results%s; 8 scaling families (chains, diamonds, trees) n=1..%d x 5 queries. Oracle: each query returns '
+                    'results%s; 8 scaling families (chains, diamonds, trees) n=1..%d x 3 queries (infer, complete, get_signatures on the result). Oracle: each query returns '
                     'within %g s CPU (hang replayed alone), no RecursionError (also wrapped), no other exception; work = Python '
                     'calls per query: work(2n) <= 8*work(n)+%d and no 4 consecutive ~doublings. max work seen in a cycle '
                     'query: %d calls' % (len(SINGLE), len(PROJECTS), len(sizes), ', '.join(FOLLOW),
-                                         ' (quick: at most 400 sampled positions x kinds per file)' if quick else '',
+                                         ' (quick: at most 250 sampled positions x kinds per file)' if quick else '',
                                          24 if quick else 64, LIMIT_S, FLOOR, max_work),
             'samples': [{'program': progs[0][0], 'source': progs[0][3][:200]},
                         {'program': progs[-1][0], 'source': progs[-1][3][:200]},
                         {'work(n) for n in 1,2,4,8,16,24,(32,64)': dict(list(scale_sample.items())[:6])}],
+            'not_reported': dict(other, **{'env means': ENV_ARTEFACT}),
             'violations': violations[:50], 'violation_counts': counts}
